@@ -89,7 +89,22 @@ def drive(mod, tier, starts, depth_limit, max_states=None, nshards=48):
         level += 1
         nxt.sort()
         if max_states is not None and total_states + len(nxt) > max_states:
-            nxt = nxt[: max(0, max_states - total_states)]
+            # a cap must not favour the start models and operations that come first in the alphabet: the states of the level are
+            # dealt round-robin over the start models, within a start model in the order of a fixed hash of the history
+            import hashlib
+
+            by = {}
+            for h in nxt:
+                by.setdefault(h[0], []).append(h)
+            for lst in by.values():
+                lst.sort(key=lambda h: hashlib.sha1(repr(h).encode()).hexdigest())
+            allowed = max(0, max_states - total_states)
+            picked = []
+            while len(picked) < allowed and any(by.values()):
+                for st in sorted(by):
+                    if by[st] and len(picked) < allowed:
+                        picked.append(by[st].pop(0))
+            nxt = sorted(picked)
             capped = True
         frontier = nxt
         if level > depth_limit:
